@@ -1079,11 +1079,8 @@ func c01StackPrimitives(c *Ctx, r *Report, clause string, st *Staged) {
 		if parser := sk.FuncDecl(recv, "Parser"); parser != nil {
 			nTop, bad := 0, ""
 			ast.Inspect(parser.Body, func(n ast.Node) bool {
-				u, ok := n.(*ast.UnaryExpr)
-				if !ok || u.Op != token.AND {
-					return true
-				}
-				ix, ok := unparen(u.X).(*ast.IndexExpr)
+				// every entry the driver looks at — through a pointer (`&stack[i]`) or directly (`stack[i].Action(…)`)
+				ix, ok := n.(*ast.IndexExpr)
 				if !ok {
 					return true
 				}
@@ -1092,7 +1089,7 @@ func c01StackPrimitives(c *Ctx, r *Report, clause string, st *Staged) {
 				}
 				nTop++
 				if got := norm(oneLine(printNode(sk.Fset, ix.Index))); got != "SP-1" && got != "SP - 1" {
-					bad = "the driver takes &stack[" + got + "] as the top entry, the top is at pointer − 1"
+					bad = "the driver takes stack[" + got + "] as the top entry, the top is at pointer − 1"
 				}
 				return true
 			})
@@ -1417,9 +1414,15 @@ func c10ActionExtent(c *Ctx, r *Report) {
 				zero, tested := false, false
 				for _, cd := range p.Conds {
 					s := cd.Atom.String()
-					if strings.Contains(s, "DEPTH") && strings.HasSuffix(s, " == 0)") {
-						tested = true
-						zero = cd.Pol
+					if !strings.Contains(s, "DEPTH") {
+						continue
+					}
+					// the depth never goes below 0 inside the scan: `== 0`, `<= 0`, `< 1` say "zero", `> 0`, `!= 0`, `>= 1` say "not zero"
+					switch {
+					case strings.HasSuffix(s, " == 0)"), strings.HasSuffix(s, " <= 0)"), strings.HasSuffix(s, " < 1)"):
+						tested, zero = true, cd.Pol
+					case strings.HasSuffix(s, " > 0)"), strings.HasSuffix(s, " != 0)"), strings.HasSuffix(s, " >= 1)"):
+						tested, zero = true, !cd.Pol
 					}
 				}
 				if condForm == "positive" {
